@@ -142,6 +142,8 @@ def rhs_bvf_prelude(ctx):
         if "SGN" in ctx:
             p += [("bvf_val.rs", {"I": "{J}", "X": "_{J}"})]
     p += [("chunk.rs", RHS_J)]
+    if "SGN" in ctx:
+        p += [("chunk_value.rs", RHS_J)]
     same = INT_BITS[ctx["I"]] == INT_BITS[ctx["J"]]
     p += ["cast_same.rs" if same else "cast_same_dummy.rs"]
     return p
@@ -168,6 +170,9 @@ def rhs_value_prelude(ctx):
 GROUPS["bvf_arith"] = dict(name="bvf_arith",
     prelude=lambda ctx: WORD_PRELUDE + ["conv_std.rs"] + VALUE_PRELUDE + ["bvf.rs", "bvf_val.rs"] + rhs_bvf_prelude(ctx) + ["bvf_arith.rs"],
     items=lambda ctx: BVF_BASE + rhs_bvf_items(ctx) + stub(BVF_CORE) + verify(["bvf.addsub_bvf"]))
+
+GROUPS["bvd_bitops"] = G("bvd_bitops", BVD_PRELUDE, BVD_BASE + stub(BVD_CORE) + verify(["bvd.binop_bvd"]))
+GROUPS["bvd_bitops"]["features"] = "#![feature(allocator_api)]"
 
 # -------------------------------------------------------------------------------------------------
 # property -> jobs
